@@ -24,6 +24,7 @@ type lstate struct {
 	pendNil int8   // 1 nil, 2 non-nil
 	pendB   uint16 // pending facts about the call's boolean results (2 bits per result index: 1 false, 2 true)
 	dead    bool   // blocked forever (self-acquisition)
+	fnrel   uint64 // classes the release function most recently obtained from a locking helper gives back when called
 }
 
 // funcAn is the per-(function, context) interpretation.
@@ -959,6 +960,15 @@ func (fa *funcAn) instr(st lstate, in ssa.Instruction) []lstate {
 				}
 			}
 		}
+		// a function that locks and hands back the matching unlock (`func lockX(mu *sync.Mutex, held bool) func()`): calling
+		// the result releases what this path acquired in this frame — nothing on the path that returns a no-op
+		if len(x.Results) == 1 {
+			if sig, isSig := x.Results[0].Type().Underlying().(*types.Signature); isSig && sig.Params().Len() == 0 && sig.Results().Len() == 0 {
+				if returnsUnlock(x.Results[0], 0) {
+					ex.retRel = (st.held &^ fa.ctx.held) & e.MutexMask()
+				}
+			}
+		}
 		fa.exits[ex] = true
 		return nil
 	case *ssa.Panic:
@@ -1103,6 +1113,23 @@ func (fa *funcAn) call(st lstate, call ssa.CallInstruction) []lstate {
 		}
 		return []lstate{st}
 	}
+	// calling the function value a locking helper handed back: release what it acquired
+	if cc := call.Common(); !cc.IsInvoke() && cc.StaticCallee() == nil {
+		if src, isCall := an.Strip(cc.Value).(*ssa.Call); isCall {
+			h := src.Call.StaticCallee()
+			single, _ := fa.resolveFunc(cc.Value, 0)
+			// (a helper every return of which hands out the same function literal is entered as that literal, below)
+			if h != nil && e.inScope(h) && returnsFuncValue(h) && single == nil {
+				for c := 0; c < 64; c++ {
+					if st.fnrel&(1<<uint(c)) != 0 {
+						st = fa.release(st, c)
+					}
+				}
+				st.fnrel = 0
+				return []lstate{st}
+			}
+		}
+	}
 	targets := fa.targets(call)
 	if len(targets) == 0 {
 		return []lstate{st}
@@ -1208,6 +1235,13 @@ func (fa *funcAn) targets(call ssa.CallInstruction) []target {
 		}
 		for _, fn := range e.P.Callees(call) {
 			add(fn, append([]ssa.Value{cc.Value}, cc.Args...), nil, false)
+		}
+		// ServeHTTP on a handler a routing step of the module handed back (`s.route(method, path).ServeHTTP(w, r)`): the
+		// handler functions that step can return
+		if cc.Method != nil && cc.Method.Name() == "ServeHTTP" {
+			for _, hf := range fa.returnedHandlers(cc.Value, 0) {
+				add(hf.fn, cc.Args, hf.mc, false)
+			}
 		}
 		return out
 	}
@@ -1513,6 +1547,11 @@ func (fa *funcAn) apply(st lstate, call ssa.CallInstruction, t target) []lstate 
 		n := st
 		n.held = ex.held
 		n.rel = st.rel | ex.rel
+		if ex.retRel != 0 {
+			n.fnrel = ex.retRel
+		} else if _, isCall := call.(*ssa.Call); isCall && returnsFuncValue(t.fn) {
+			n.fnrel = 0
+		}
 		if (len(distinct) > 1 || uniform) && (ex.errNil != 0 || ex.bools != 0) {
 			if _, isCall := call.(*ssa.Call); isCall {
 				n.pend, n.pendNil, n.pendB = fa.callID[call], ex.errNil, ex.bools
@@ -2003,4 +2042,123 @@ func (fa *funcAn) boolResult(v ssa.Value, ret *ssa.Return) int8 {
 		}
 	}
 	return 0
+}
+
+// returnsFuncValue: fn has a single result of type func().
+func returnsFuncValue(fn *ssa.Function) bool {
+	if fn == nil {
+		return false
+	}
+	res := fn.Signature.Results()
+	if res.Len() != 1 {
+		return false
+	}
+	sig, ok := res.At(0).Type().Underlying().(*types.Signature)
+	return ok && sig.Params().Len() == 0 && sig.Results().Len() == 0
+}
+
+// returnsUnlock: the function value is (on some way) the Unlock of a mutex: a bound method value `mu.Unlock`, or a
+// function literal that calls an Unlock.
+func returnsUnlock(v ssa.Value, depth int) bool {
+	if depth > 3 {
+		return false
+	}
+	switch x := an.Strip(v).(type) {
+	case *ssa.MakeClosure:
+		f, ok := x.Fn.(*ssa.Function)
+		if !ok {
+			return false
+		}
+		found := false
+		an.Calls(f, func(call ssa.CallInstruction) {
+			if an.IsMethod(call, "sync", "Mutex", "Unlock") || an.IsMethod(call, "sync", "RWMutex", "Unlock") || an.IsMethod(call, "sync", "RWMutex", "RUnlock") {
+				found = true
+			}
+		})
+		return found
+	case *ssa.Phi:
+		for _, e := range x.Edges {
+			if returnsUnlock(e, depth+1) {
+				return true
+			}
+		}
+	}
+	return false
+}
+
+type handlerFn struct {
+	fn *ssa.Function
+	mc *ssa.MakeClosure
+}
+
+// returnedHandlers: the functions behind an http.Handler value that is the result of a call of a module function —
+// every return of that function is followed through interface and type conversions to a function literal or to the
+// closure a handler constructor returns.
+func (fa *funcAn) returnedHandlers(v ssa.Value, depth int) []handlerFn {
+	if depth > 3 {
+		return nil
+	}
+	strip := func(x ssa.Value) ssa.Value {
+		for i := 0; i < 6; i++ {
+			switch y := x.(type) {
+			case *ssa.MakeInterface:
+				x = y.X
+			case *ssa.ChangeType:
+				x = y.X
+			case *ssa.ChangeInterface:
+				x = y.X
+			default:
+				return x
+			}
+		}
+		return x
+	}
+	src, ok := strip(an.Origin(v)).(*ssa.Call)
+	if !ok {
+		src, ok = strip(an.Strip(v)).(*ssa.Call)
+	}
+	if !ok {
+		return nil
+	}
+	h := src.Call.StaticCallee()
+	if h == nil || len(h.Blocks) == 0 || !fa.e.inScope(h) {
+		return nil
+	}
+	var out []handlerFn
+	seen := map[*ssa.Function]bool{}
+	helper := &funcAn{e: fa.e, fn: h}
+	an.Instrs(h, func(in ssa.Instruction) {
+		ret, isRet := in.(*ssa.Return)
+		if !isRet || len(ret.Results) != 1 {
+			return
+		}
+		var visit func(x ssa.Value, d int)
+		visit = func(x ssa.Value, d int) {
+			if d > 4 {
+				return
+			}
+			x = strip(x)
+			if ph, isPhi := x.(*ssa.Phi); isPhi {
+				for _, e := range ph.Edges {
+					visit(e, d+1)
+				}
+				return
+			}
+			if f, mc := helper.resolveFunc(x, 0); f != nil {
+				if !seen[f] {
+					seen[f] = true
+					out = append(out, handlerFn{f, mc})
+				}
+				return
+			}
+			for _, hf := range helper.returnedHandlers(x, depth+1) {
+				if !seen[hf.fn] {
+					seen[hf.fn] = true
+					out = append(out, hf)
+				}
+			}
+		}
+		visit(ret.Results[0], 0)
+	})
+	return out
 }
